@@ -13,7 +13,8 @@
 (*   unit[e]        1..nunits            parent[e]  0 = child of the root   *)
 (*   tag[e], decl[e]  DW_TAG name, DW_AT_declaration present                *)
 (*   refs           sequence of [from, to, kind]; to > 0 an entry, to = 0   *)
-(*                  an invalid offset, to = -u the root of unit u           *)
+(*                  an invalid offset, to = -u the root of unit u;          *)
+(*                  from = -u: the reference is held by the root of unit u  *)
 (* The first part is the property (declarative closure); the second part is *)
 (* the machine in the shape of the code.                                    *)
 EXTENDS Integers, Sequences, FiniteSets
@@ -92,15 +93,21 @@ Closed(G, S) == ClosedF(NeedsFn(G), S)
 RECURSIVE LfpF(_, _)
 LfpF(f, S) == LET T == S \cup UNION {f[e] : e \in S}
               IN IF T = S THEN S ELSE LfpF(f, T)
+(* The unit roots are always part of the output (they are the ancestors of  *)
+(* every entry), so what they reference is needed whatever is required.     *)
+RootRefs(G) == {i \in DOMAIN G.refs : G.refs[i].from < 0}
+RootTargets(G) == {G.refs[i].to : i \in RootRefs(G)} \cap Entries(G)
+RootInvalid(G) == \E i \in RootRefs(G) : G.refs[i].to = 0
+Seeds(G, Req) == (Req \cap Entries(G)) \cup RootTargets(G)
 (* Must: the least set that contains Required and is closed. *)
-Must(G, Req) == LfpF(NeedsFn(G), Req \cap Entries(G))
+Must(G, Req) == LfpF(NeedsFn(G), Seeds(G, Req))
 
 (* May: connected to a required entry by parent, child and reference       *)
 (* relations in either direction (the property's upper bound).              *)
 Linked(G, e) == (IF G.parent[e] = 0 THEN {} ELSE {G.parent[e]}) \cup Children(G, e)
-                \cup RefTargets(G, e) \cup {G.refs[i].from : i \in {j \in DOMAIN G.refs : G.refs[j].to = e}}
+                \cup RefTargets(G, e) \cup ({G.refs[i].from : i \in {j \in DOMAIN G.refs : G.refs[j].to = e}} \cap Entries(G))
 LinkedFn(G) == [e \in Entries(G) |-> Linked(G, e)]
-May(G, Req) == LfpF(LinkedFn(G), Req \cap Entries(G))
+May(G, Req) == LfpF(LinkedFn(G), Seeds(G, Req))
 
 (* An observed retained set S is allowed by the property. *)
 AllowedWith(nd, M, Y, S) == M \subseteq S /\ S \subseteq Y /\ ClosedF(nd, S)
@@ -171,8 +178,15 @@ Traverse(m, G, Req, e) ==
 
 (* require_entry only appends to `required`; the entries are required in   *)
 (* traversal order, so the traversal can be evaluated once per graph.       *)
-TraverseAll(G) == Traverse(MInit, G, {}, 1)
-WithRequired(m, G, Req) == [m EXCEPT !.required = SortedSeq(Req \cap Entries(G))]
+(* References held by a unit root: the root is always converted, so their    *)
+(* targets are required when the unit is opened.  (DEVIATION: gimli up to    *)
+(* 452d051 skips the root's attributes in FilterUnit::new; see notes/C19.)   *)
+RECURSIVE RootRefSeq(_, _)
+RootRefSeq(G, i) == IF i > Len(G.refs) THEN <<>>
+                    ELSE (IF G.refs[i].from < 0 THEN <<G.refs[i]>> ELSE <<>>) \o RootRefSeq(G, i + 1)
+RootDeps(G) == AttrDepsOf(RootRefSeq(G, 1))
+TraverseAll(G) == Traverse([MInit EXCEPT !.required = RootDeps(G)], G, {}, 1)
+WithRequired(m, G, Req) == [m EXCEPT !.required = RootDeps(G) \o SortedSeq(Req \cap Entries(G))]
 
 (* get_reachable: state of the worklist loop *)
 GRInit(m) == [edges |-> m.edges, live |-> m.known, queue |-> <<m.required>>, cur |-> <<>>,
@@ -194,7 +208,7 @@ GRRun(w) == IF GRDone(w) THEN w ELSE GRRun(GRStep(w))
 
 GetReachable(m) == Range(GRRun(GRInit(m)).reachable)
 (* final worklist state for a graph and a required set *)
-MachineRun(G, Req) == GRRun(GRInit(Traverse(MInit, G, Req, 1)))
+MachineRun(G, Req) == GRRun(GRInit(Traverse([MInit EXCEPT !.required = RootDeps(G)], G, Req, 1)))
 Machine(G, Req) == Range(MachineRun(G, Req).reachable)
 
 (* ConvertUnitSection::new_with_filter: the sorted offsets are split into   *)
@@ -229,7 +243,7 @@ ResultOkWith(G, Req, w, M, Y, nd) ==
     /\ \A e \in R : RefTargets(G, e) \subseteq R              \* no dangling reference
     /\ ReservedAll(G, R) = R                                  \* every retained entry reserved in its unit
     /\ \A e \in R : OutParent(G, R, e) = G.parent[e]          \* nesting intact
-    /\ w.steps <= Cardinality(Req) + Len(G.refs) + 4 * G.n + 2  \* termination: bounded work
+    /\ w.steps <= Cardinality(Req) + 2 * Len(G.refs) + 4 * G.n + 2  \* termination: bounded work
 ResultOk(G, Req) == ResultOkWith(G, Req, MachineRun(G, Req), Must(G, Req), May(G, Req), NeedsFn(G))
 MachineIsClosure(G, Req) == Machine(G, Req) = Must(G, Req)
 
@@ -242,6 +256,6 @@ WellFormed(G) ==
                              /\ G.parent[e] # 0 => G.unit[G.parent[e]] = G.unit[e]
                              /\ e > 1 => G.unit[e - 1] <= G.unit[e]
                              /\ (e > 1 /\ G.parent[e] # 0) => IsAncestorOrSelf(G, G.parent[e], e - 1)
-    /\ \A i \in DOMAIN G.refs : /\ G.refs[i].from \in Entries(G)
+    /\ \A i \in DOMAIN G.refs : /\ G.refs[i].from \in Entries(G) \cup ((-G.nunits)..(-1))
                                 /\ G.refs[i].to \in (-G.nunits)..G.n
 =============================================================================
